@@ -903,7 +903,13 @@ class SymbolTable():
 
         tmp_symbol = symbol1.copy()
         symbol1.copy_properties(symbol2)
-        symbol2.copy_properties(tmp_symbol)
+        try:
+            symbol2.copy_properties(tmp_symbol)
+        except TypeError:
+            # The two symbols are of incompatible types. Undo the change
+            # already made to symbol1 so that the table is left unchanged.
+            symbol1.copy_properties(tmp_symbol)
+            raise
 
         # Update argument list if necessary
         index1 = None
